@@ -434,6 +434,67 @@ func runC07(res *lp.Result) {
 			}
 		}
 	}
+	// Near-collisions between the two header layouts. A codec with a compressor expects 5 header bytes + CRC-24; the first six
+	// bytes of such a header can lie within a few bit flips of a valid 3-byte header + CRC-24 announcing another length. Flipping
+	// exactly those bits is a corruption of weight 1..7 like any other and must be rejected — also by a decoder that would try the
+	// other layout when the first does not check. The search is directed: lengths l that differ from the real length n in one bit,
+	// and a payload that carries, where a reader of the other layout would look for it, the CRC-32 that reader would compute.
+	{
+		lz := codecs["lz4"]
+		found := 0
+		for n := 40; n < 2600 && found < 40; n++ {
+			for _, sc := range []bool{true, false} {
+				payload := rng.Bytes(n)
+				var b0 bytes.Buffer
+				if lz.EncodeSegment(&segment.Segment{Header: &segment.Header{IsSelfContained: sc}, Payload: &segment.Payload{UncompressedData: payload}}, &b0) != nil {
+					continue
+				}
+				enc := b0.Bytes()
+				if len(enc) != 8+n+4 { // travels compressed: another shape, not searched
+					continue
+				}
+				for bit := -1; bit < 17; bit++ {
+					l := n
+					if bit >= 0 {
+						l = n ^ (1 << uint(bit))
+					}
+					if l < 2 || l+2 > n {
+						continue
+					}
+					for _, sc3 := range []uint64{0, 1} {
+						d3 := uint64(l) | sc3<<17
+						target := append(le(d3, 3), le(uint64(refCrc24(d3, 3)), 3)...)
+						w := 0
+						for i := 0; i < 6; i++ {
+							for x := target[i] ^ enc[i]; x != 0; x &= x - 1 {
+								w++
+							}
+						}
+						if w < 1 || w > 7 {
+							continue
+						}
+						// the payload a reader of the 3-byte layout would check: the two left-over header bytes, then l-2 payload bytes
+						p2 := append([]byte{}, payload...)
+						seen := append(append([]byte{}, enc[6:8]...), p2[:l-2]...)
+						copy(p2[l-2:], le(uint64(refPayloadCrc(seen)), 4))
+						var b1 bytes.Buffer
+						if lz.EncodeSegment(&segment.Segment{Header: &segment.Header{IsSelfContained: sc}, Payload: &segment.Payload{UncompressedData: p2}}, &b1) != nil {
+							continue
+						}
+						e1 := b1.Bytes()
+						if len(e1) != len(enc) || !bytes.Equal(e1[:8], enc[:8]) {
+							continue
+						}
+						corrupted := append(append([]byte{}, target...), e1[6:]...)
+						found++
+						res.Count("layout-near-collisions")
+						pristineOf = append([]byte{}, e1...)
+						try("lz4", corrupted, fmt.Sprintf("header weight %d: the first six bytes turned into a 3-byte header announcing %d bytes, real length %d", w, l, n))
+					}
+				}
+			}
+		}
+	}
 	flip := func(b []byte, bit int) { b[bit/8] ^= 1 << uint(bit%8) }
 	// the last two really travel compressed through the LZ4 codec (the random ones do not compress and are sent as they are)
 	payloads := [][]byte{{}, {0x42}, rng.Bytes(17), rng.Bytes(300), bytes.Repeat([]byte("SELECT * FROM t "), 12), append(rng.Bytes(40), make([]byte, 90)...)}
